@@ -64,6 +64,7 @@ def replay_onestep(model):
 
 
 def task_onestep(ctx):
+    """onestep is x' = x + alpha F(x), returns the force and energy of the geometry it evaluated, leaves padding slots in place and couples no two molecules of a batch."""
     from contracts.C07_differentiability import _quiet
 
     ctx.under_contract(SD + ".onestep", stubs=["esdriver"])
@@ -191,6 +192,7 @@ def replay_report(model):
 
 
 def task_run(ctx):
+    """run (loop cut with ghost history): stops at the first evaluation meeting the tolerance or after max_evl evaluations, returns the residuals of the last evaluation and reports 'not converged' exactly when the tolerance was not met."""
     ctx.under_contract(SD + ".run", loops_cut=["for i in range(self.max_evl)"], stubs=["onestep"])
     max_evl = integer("max_evl")
     env = dict(max_evl=max_evl, tol=real("tol"), j=integer("j"))
